@@ -762,10 +762,10 @@ def check_property(pid, tier, seed):
         for f in u["failures"]:
             if sel is None or sel(f["obligation"]):
                 fails.append(f)
-            elif not f.get("label") and any(o["name"].endswith("%s.safety" % f["fn"]) and sel(o["name"]) for o in u["obligations"]):
+            elif (not f.get("label") or f.get("kind") in ("invariant_end", "invariant_entry")) and any(o["name"].endswith("%s.safety" % f["fn"]) and sel(o["name"]) for o in u["obligations"]):
                 # an unlabelled proof step (a loop invariant, an assertion) of a function whose safety row carries this property no longer holds: the verifier then
                 # assumes it for the rest of the body, so "no panic" is not decided for that function - neither an alarm nor a pass
-                undecided_extra.append("%s: an unlabelled proof step of fn %s fails (%s: %s); its safety obligation is not decided" % (u["unit"], f["fn"], f["kind"], f.get("text", "")[:120]))
+                undecided_extra.append("%s: a proof step of fn %s that this property does not select fails (%s %s: %s); the function's safety obligation rests on it and is not decided" % (u["unit"], f["fn"], f["kind"], f.get("label") or "", f.get("text", "")[:120]))
         if sel is not None:
             # only the obligations that carry this property are reported (and counted) in its evidence
             u["obligations"] = [o for o in u["obligations"] if sel(o["name"])]
